@@ -287,7 +287,36 @@ def r12_10(ctx):
            'does not accept them raises inside the worker\'s error path' % (ex.id, ast.unparse(extra[0][1] or extra[0][0].ast)[:70]))
 
 
+
+def r12_11(ctx):
+    ctx.rule('R12.11', 'the picklable stand-ins answer only for the attributes they have: a catch-all __getattr__ also '
+                       'answers pickle\'s own probes (__setstate__, __reduce_ex__, __getstate__ on a half-built '
+                       'instance) and the record can no longer be loaded', floor=4)
+    m = ctx.model
+    for qn, ci in sorted(m.classes.items()):
+        if ci.module.name != 'einfo':
+            continue
+        hook = ci.methods.get('__getattr__') or ci.methods.get('__getattribute__')
+        ok = True
+        why = 'no attribute hook'
+        if hook is not None:
+            # acceptable only if it raises AttributeError for every name it does not know: every normal exit is a
+            # return under a test that mentions the name parameter
+            P = hook.positional_params()
+            name = P[1] if len(P) > 1 else '?'
+            rets = [n for n in hook.cfg.where(lambda n: n.kind == 'stmt' and isinstance(n.ast, ast.Return))]
+            falls = [a for (a, l) in hook.cfg.pred[hook.cfg.exit.id] if l != 'x' and a in hook.cfg.live and
+                     not isinstance(hook.cfg.nodes[a].ast, ast.Return)]
+            ok = not falls and all(any(name in t and p and ('==' in t or ' in ' in t or '.startswith(' in t)
+                                       for (t, p) in q.guards_norm(hook, r)) for r in rets)
+            why = '__getattr__ returns only for names it tests for' if ok else \
+                '%s.%s answers for any name: pickle finds a "__setstate__" that is None (or a value) on the fresh ' \
+                'instance and loading the record fails in the parent\'s result thread' % (ci.name, hook.name)
+        ctx.ob('R12.11', '%s:no-catch-all-attribute-hook' % ci.name, ok, hook if hook is not None else ci, None, why)
+
+
 def run(ctx):
+    r12_11(ctx)
     r12_10(ctx)
     r12_1(ctx, modules=('einfo', 'pool'), floor=6)
     r12_2(ctx)
@@ -312,6 +341,7 @@ def run(ctx):
 _E ='billiard/einfo.py'
 _P = 'billiard/pool.py'
 MUTANTS = [
+    ('stand-in-answers-none-for-everything', 'billiard/einfo.py', "class _Object:\n\n    def __init__(self, **kw):\n        [setattr(self, k, v) for k, v in kw.items()]\n", "class _Object:\n\n    def __init__(self, **kw):\n        [setattr(self, k, v) for k, v in kw.items()]\n\n    def __getattr__(self, name):\n        return None\n", 'R12.11'),
     ('record-remakes-the-exception', 'billiard/einfo.py', "        self.type, exception, tb = exc_info or sys.exc_info()\n", "        self.type, exception, tb = exc_info or sys.exc_info()\n        if not isinstance(exception, Exception):\n            exception = self.type(exception)\n", 'R12.10'),
     ('failure-record-without-the-outer-frame', _P, "                        result = (False, ExceptionInfo())\n",
      "                        result = (False, ExceptionInfo((type(exc), exc, exc.__traceback__.tb_next)))\n", 'R12.8'),
